@@ -9,8 +9,14 @@ from .smt import PathSolver, Z, fresh_int, reset_names, simp
 from .values import PathEnd
 
 
+import os as _os
+
+SECOND_BACKENDS = _os.environ.get("VERIF_TIER", "quick") == "thorough" and not _os.environ.get("PYVC_NO_SECOND")
+SECOND_TIMEOUT_S = int(_os.environ.get("PYVC_SECOND_TIMEOUT", "10"))
+
+
 class Obligation:
-    __slots__ = ("name", "status", "detail", "ms", "backend", "model", "path_id", "formula", "inputs")
+    __slots__ = ("name", "status", "detail", "ms", "backend", "model", "path_id", "formula", "inputs", "second")
 
     def __init__(self, name, status, detail="", ms=0.0, backend="z3-5.1", model=None, path_id=None, formula=None):
         self.name = name
@@ -22,6 +28,7 @@ class Obligation:
         self.path_id = path_id
         self.formula = formula
         self.inputs = None
+        self.second = None  # thorough tier: verdicts of the external solvers on the same query
 
 
 class PathCtx:
@@ -218,12 +225,18 @@ class PathCtx:
                     d = True
                 else:
                     from . import forker
+                    from .values import FUNCTION_DEADLINE, OutOfReach
 
+                    if FUNCTION_DEADLINE[0] is not None and time.time() > FUNCTION_DEADLINE[0]:
+                        raise OutOfReach("exploring this function took more than its time budget (engine budget: too many paths through the current code)")
                     role = forker.try_fork()
                     if role == "child":
                         d = False
                         self.forked_child = True
                         self.pending = []
+                        from .values import arm_path_timer
+
+                        arm_path_timer()  # interval timers are not inherited across fork
                     elif role == "parent":
                         d = True
                     else:
@@ -276,6 +289,13 @@ class PathCtx:
                     formula = list(self.solver.pc) + [z3.Not(c)]
         ms = (time.time() - t0) * 1000
         ob = Obligation(name, status, detail, ms, model=model, formula=formula)
+        if SECOND_BACKENDS and status == "discharged" and cond is not True and cond is not False and not z3.is_true(simp(Z(cond))):
+            # thorough tier: the very query z3 5.1 answered "unsat" (path condition, activated axioms, purification
+            # definitions, negated clause) goes to /usr/bin/z3 4.8.12 and /usr/bin/cvc5 as SMT-LIB2 text
+            from .smt import second_opinion
+
+            neg = self.solver.purify(z3.Not(simp(Z(cond))))
+            ob.second = second_opinion(list(self.solver.s.assertions()) + [neg], timeout_s=SECOND_TIMEOUT_S)
         if model is not None and self.concretizer is not None:
             try:
                 ob.inputs = self.concretizer(model)
